@@ -82,6 +82,8 @@ def run(ctx):
     rep.rule("TLV-6", "both daemon port tasks use the TLV forwarder alike and empty it only when the port is not master", floor=3)
     rep.rule("TLV-7", "the forwarder never loses a TLV that does not fit yet", floor=1)
     rep.rule("TLV-8", "forwarded PATH_TRACE is skipped when the own one is appended", floor=1)
+    rep.rule("TLV-9", "ForwardTLV actions are produced only for Announces that passed the acceptance gate", floor=1)
+    fc.check_forward_gate(rep, prog, "TLV-9")
 
     # ---------------- TLV-1
     try:
